@@ -29,6 +29,7 @@ Reset      == IsEvent("reset") /\ st' = StInit
 Codec      == Stateless("codec", CodecOK(E))
 DecodeEv   == Stateless("decode", DecodeOK(E))
 HexFmtEv   == Stateless("hexfmt", HexFmtOK(E))
+CanonOut   == Stateless("canonout", CanonOutOK(E))
 HexParseEv == Stateless("hexparse", HexParseOK(E))
 
 Advance(ids) == [st EXCEPT !.last = IF Len(ids) > 0 THEN ids[Len(ids)] ELSE st.last,
@@ -120,7 +121,7 @@ GoldenGeom == Stateless("goldengeom", GoldenGeomOK(E))
 GoldenLookup == Stateless("goldenlookup", GoldenLookupOK(E))
 
 TraceNext ==
-  \/ Reset \/ Codec \/ DecodeEv \/ HexFmtEv \/ HexParseEv
+  \/ Reset \/ Codec \/ DecodeEv \/ HexFmtEv \/ HexParseEv \/ CanonOut
   \/ SortedBlock \/ AncPair \/ RunBlock
   \/ Children \/ ChildrenBig \/ Ancestors \/ ParentComp \/ ChildComp \/ LevelBlock \/ LevelEnd
   \/ Uncompact \/ WorldEv \/ Compact8 \/ Compact10 \/ CompactPair \/ BigCompact
